@@ -272,7 +272,7 @@ def run_alias(R, ctx, fams, label=None, aimed=False):
         wname = bytes.fromhex(s["writes"][0][0]).decode("latin-1").lower() if s["writes"] else "none"
         summary = describe(s, v) if v.get("result") == "changed" else "alias: %s in scenario [%s] / %s / [%s]: %s" % (
             v.get("result"), "; ".join(show(a) for a in s["setup"]), show(s["read"]), "; ".join(show(a) for a in s["writes"]), v.get("detail", ""))
-        R.violation("alias-%s-%s-%s" % (s["id"].split("/")[0], cmdname, wname), dict(
+        R.violation("alias-%s-%s-%s%s" % (s["id"].split("/")[0], cmdname, wname, "" if len(s["writes"]) < 2 else "-%d" % len(s["writes"])), dict(
             kind="impl-violates-spec", engine="alias", summary=summary, lines=[json.dumps(s, separators=(",", ":"))], verdict=v,
             explanation="the reply of a reading command refers to stored bytes; the connection encodes it after the key's lock is released, so a write that "
                         "lands in between (another client; in cluster mode the next applied entry) must not change those bytes: every write has to install a "
